@@ -294,14 +294,22 @@ class _DeadCodeEliminate:
                     case _:
                         raise RuntimeError(f'unexpected def: {d}')
 
-            # if a phi variable is unused, then its arguments are also unused
+            # if a phi variable is unused, an argument that is only there to
+            # feed it is unused as well -- provided it has no use of its own,
+            # feeds no other phi, and its right-hand side is pure
             for phi in unused_phi:
-                lhs = self.def_use.defs[phi.lhs]
-                rhs = self.def_use.defs[phi.rhs]
-                if isinstance(lhs, AssignDef) and isinstance(lhs.site, Assign) and isinstance(lhs.site.target, Id):
-                    unused_assign.add(lhs.site)
-                if isinstance(rhs, AssignDef) and isinstance(rhs.site, Assign) and isinstance(rhs.site.target, Id):
-                    unused_assign.add(rhs.site)
+                for idx in (phi.lhs, phi.rhs):
+                    arg = self.def_use.defs[idx]
+                    if (
+                        isinstance(arg, AssignDef)
+                        and isinstance(arg.site, Assign)
+                        and isinstance(arg.site.target, Id)
+                        and len(self.def_use.uses[arg]) == 0
+                        and all(s == phi for s in self.def_use.successors[arg] if isinstance(s, PhiDef))
+                        and phi.lhs != phi.rhs
+                        and Purity.analyze_expr(arg.site.expr, self.def_use)
+                    ):
+                        unused_assign.add(arg.site)
 
             # run code eliminator
             self.func, eliminated = _Eliminator(self.func, self.def_use, unused_assign, unused_fv)._apply()
